@@ -104,8 +104,13 @@ theorem all_correct {G : GCtx} (ok : G.OK) : ∀ fuel, StmtSpec G fuel ∧ StmtL
             exact this
         | syscall id args =>
           simp only [okS5, sysArgs5, Bool.and_eq_true, Bool.or_eq_true, decide_eq_true_eq, List.all_eq_true] at hok
-          rcases hok.2 with hp | hone
+          rcases hok.2 with (hp | ⟨hpk, hpp⟩) | hone
           · exact execS_syscall (KOf G pi sp dep hi) _ wf _ id args σ hok.1 hp
+          · exact execS_syscall_phase (KOf G pi sp dep hi) _ wf (F + 1) id args σ hok.1
+              (fun f hf => actPhase_pp (KOf G pi sp dep hi) wf.toWF G.pnames (ok.pure_ok hpk)
+                (fun g hg => ok.pnames_mem g (by simpa using hg)) (fun st mem hr => noLoc_of_rep hr) 2 f
+                (fun k hk => callLeaf_of_spec ok (ok.pure_ok hpk) hpi sp dep hi hlo hspv hstack k (fun j hj => hcsF1 j (by omega)))
+                args hpp)
           · exact execS_syscall_phase (KOf G pi sp dep hi) _ wf (F + 1) id args σ hok.1
               (fun f hf => sysPhase_5 ok hpi sp dep hi hlo hspv hstack (F + 1) hcsF1 args hone f (by omega))
         | assignSub n i e =>
@@ -154,8 +159,14 @@ theorem all_correct {G : GCtx} (ok : G.OK) : ∀ fuel, StmtSpec G fuel ∧ StmtL
             | some w =>
               rw [hr] at hvs
               simp only [decide_eq_true_eq] at hvs
-              rcases hargs with hp | hone
+              rcases hargs with (hp | ⟨hpk, hpp⟩) | hone
               · exact execS_valcall (KOf G pi sp dep hi) _ wf _ g args σ w hr hvs hp
+              · exact execS_valcall_of (KOf G pi sp dep hi) _ wf _ g args σ w hr hvs
+                  (execS_syscall_phase (KOf G pi sp dep hi) _ wf (F + 1) w.toNat args σ hvs
+                    (fun f hf => actPhase_pp (KOf G pi sp dep hi) wf.toWF G.pnames (ok.pure_ok hpk)
+                      (fun g hg => ok.pnames_mem g (by simpa using hg)) (fun st mem hr => noLoc_of_rep hr) 2 f
+                      (fun k hk => callLeaf_of_spec ok (ok.pure_ok hpk) hpi sp dep hi hlo hspv hstack k (fun j hj => hcsF1 j (by omega)))
+                      args hpp))
               · exact execS_valcall_of (KOf G pi sp dep hi) _ wf _ g args σ w hr hvs
                   (execS_syscall_phase (KOf G pi sp dep hi) _ wf (F + 1) w.toNat args σ hvs
                     (fun f hf => sysPhase_5 ok hpi sp dep hi hlo hspv hstack (F + 1) hcsF1 args hone f (by omega)))
